@@ -66,7 +66,7 @@ Section switch_free.
   Proof.
     intro H. unfold do_enter. pose proof (entry_check_enabled s a) as E.
     destruct (entry_check c s a) as [[[s1 v] tr] sv]. destruct E as (E & _ & _). rewrite H in E.
-    destruct (shp c), v; try exact E; try (apply entry_record_enabled; exact E).
+    destruct (shp c), v; try destruct (state_trig tr); try exact E; try (apply entry_record_enabled; exact E).
   Qed.
 
   Lemma exit_record_enabled s top anc : enabled (exit_record c s top anc) = enabled s.
